@@ -410,3 +410,29 @@ func parentLinksEntry(e interface{}, depth int) string {
 	}
 	return ""
 }
+
+// EffShared lists, for every value of the tree in written order (nested statements and pair statements included), what
+// GetSharedLeft and GetSharedRight report for it - the counterpart of the model's eff_shared (Spec/Shared.v).
+func EffShared(n *tree.Node, depth int, out *[][2][]string) {
+	if n == nil || depth > 200 {
+		return
+	}
+	if n.Left != nil || n.Right != nil {
+		EffShared(n.Left, depth+1, out)
+		EffShared(n.Right, depth+1, out)
+		return
+	}
+	*out = append(*out, [2][]string{append([]string{}, n.GetSharedLeft()...), append([]string{}, n.GetSharedRight()...)})
+	switch v := n.Entry.(type) {
+	case *tree.Statement:
+		if v != nil {
+			for _, p := range FieldPtrs(v) {
+				EffShared(*p, depth+1, out)
+			}
+		}
+	case []*tree.Node:
+		for _, x := range v {
+			EffShared(x, depth+1, out)
+		}
+	}
+}
